@@ -101,6 +101,8 @@ fn lin_case(m: &LinearModel, tags: Vec<String>, compiled_like: bool) -> Case {
     lin_case2(m, tags, if compiled_like { 2 } else { 0 }).0
 }
 
+/// `profile` 3 = came out of the compiler from a source on which the bounds analysis is known to reach its fixed
+/// point in one compilation (`bounds_order_program`): differing derived domains are NOT excused there.
 /// `profile`: 0 = byte-exactness only, 1 = built through the API in the compiler's output profile (the first
 /// re-compilation may tighten domains), 2 = came out of the compiler. Returns the re-compiled model too.
 fn lin_case2(m: &LinearModel, mut tags: Vec<String>, profile: u8) -> (Case, Option<LinearModel>) {
@@ -160,7 +162,7 @@ fn lin_case2(m: &LinearModel, mut tags: Vec<String>, profile: u8) -> (Case, Opti
                 tags.push("reparse-accepted".into());
                 let t2 = l2.to_string();
                 if in_range {
-                    c.oracle = format!("{} {} {} {} {}", if profile == 1 { "same-lin-api" } else { "same-lin" }, lin, sx::lin_model(&l2), sx::q(&text), sx::q(&t2));
+                    c.oracle = format!("{} {} {} {} {}", if profile == 1 { "same-lin-api" } else if profile == 3 { "same-lin-strict" } else { "same-lin" }, lin, sx::lin_model(&l2), sx::q(&text), sx::q(&t2));
                     second = Some(l2);
                 } else {
                     tags.push("roundtrip-recorded-only".into());
@@ -422,6 +424,34 @@ fn compile_source(text: &str) -> Option<Model> {
     }).ok().flatten()
 }
 
+/// a non-affine row (abs / min / max) with a variable on its RIGHT-hand side, written BEFORE the rows that bound
+/// that variable: the bounds analysis has to revisit the non-affine row when the later row tightens the variable.
+/// Unbounded `Real` / `NonNegativeReal` declarations, so every finite bound of the result is a derived one.
+fn bounds_order_program(r: &mut Rng) -> String {
+    let k = 1 + r.below(4);
+    let (row, third) = match r.below(5) {
+        0 => (format!("abs{{ x }} <= y"), false),
+        1 => (format!("abs{{ x }} <= y + {}", k), false),
+        2 => (format!("max{{ x, w }} <= y + {}", k), true),
+        3 => (format!("min{{ x, w }} >= -y"), true),
+        _ => (format!("abs{{ x }} + abs{{ w }} <= y"), true),
+    };
+    let bound = match r.below(3) { 0 => format!("y <= {}", 2 + r.below(8)), 1 => format!("2y <= {}", 3 + r.below(8)), _ => format!("y + 1 <= {}", 3 + r.below(6)) };
+    let n1 = *r.pick(&["", "lim: "]);
+    let n2 = *r.pick(&["", "cap: "]);
+    let mut s = String::new();
+    s.push_str(match r.below(3) { 0 => "min y\n", 1 => "max x\n", _ => "min x + y\n" });
+    s.push_str("s.t.\n");
+    s.push_str(&format!("    {}{}\n", n1, row));
+    if third && r.chance(1, 2) { s.push_str("    w >= -3\n    w <= 4\n"); }
+    s.push_str(&format!("    {}{}\n", n2, bound));
+    if r.chance(1, 2) { s.push_str("    y >= 0\n"); }
+    s.push_str("define\n");
+    s.push_str(if third { "    x, w as Real\n" } else { "    x as Real\n" });
+    s.push_str(if r.chance(1, 2) { "    y as Real\n" } else { "    y as NonNegativeReal\n" });
+    s
+}
+
 /// iterated families and (indexed or shared) row names: the compiled text spells every expanded member literally
 /// (`x_on`, `cap_A`), a fragment may ALSO be the name of a declared variable, and rows that share one source name
 /// are de-duplicated by the compiler (`cap`, `cap__2`, `cap__3`)
@@ -521,6 +551,9 @@ fn seeded_sources() -> Vec<(&'static str, &'static str)> {
         ("seed-row-name-fragment-names-boolean", "min sum(s in [\"on\", \"off\"]) { x_s } + on\ns.t.\n    cap_s: x_s >= 1 - on for s in [\"on\", \"off\"]\ndefine\n    x_s as NonNegativeReal(0, 4) for s in [\"on\", \"off\"]\n    on as Boolean"),
         ("seed-three-rows-one-name", "max x_0 + x_1 + x_2\ns.t.\n    cap: x_i <= i + 1 for i in 0..3\ndefine\n    x_i as NonNegativeReal for i in 0..3"),
         ("seed-three-logic-rows-one-name", "solve\ns.t.\n    r: a xor b\n    r: a implies b\n    other: a or c\n    r: b or c\ndefine\n    a, b, c as Boolean"),
+        ("seed-bounds-order-abs", "min y\ns.t.\n    abs{ x } <= y\n    y <= 5\ndefine\n    x, y as Real"),
+        ("seed-bounds-order-max", "max x\ns.t.\n    lim: max{ x, w } <= y + 1\n    cap: 2y <= 9\ndefine\n    x, w, y as Real"),
+        ("seed-strict-rows", "max x + y\ns.t.\n    cap: x < 9\n    2x + y > 1\n    y <= 4\ndefine\n    x, y as Real(-5, 10)"),
         ("seed-neg-literal", "min -3 * x + (-2) * -y\ns.t.\n    x - -y >= -1\ndefine\n    x, y as Real(-5, 10)"),
     ]
 }
@@ -531,7 +564,8 @@ fn from_source(text: &str, tag: &str, cases: &mut Vec<Case>) {
         Some(m) => {
             cases.push(model_case(&m, vec![tag.into(), "compiled-model".into()], true));
             if let Ok(Ok(l)) = std::panic::catch_unwind(std::panic::AssertUnwindSafe(|| Linearizer::linearize(m.clone()))) {
-                cases.push(lin_case(&l, vec![tag.into(), "compiled-linear-model".into()], true));
+                let strict = tag.contains("bounds-order");
+                cases.push(lin_case2(&l, vec![tag.into(), "compiled-linear-model".into()], if strict { 3 } else { 2 }).0);
             }
         }
     }
@@ -546,7 +580,11 @@ pub fn generate(seed: u64, n: usize, thorough: bool, corpus: Option<&str>) -> Ve
         if let Ok(rd) = std::fs::read_dir(dir) {
             let mut files: Vec<_> = rd.filter_map(|e| e.ok()).map(|e| e.path()).filter(|p| p.extension().map(|x| x == "rooc").unwrap_or(false)).collect();
             files.sort();
-            for f in files { if let Ok(s) = std::fs::read_to_string(&f) { from_source(&s, "corpus", &mut cases); } }
+            for f in files {
+                // `*bounds-order*` files are sources on which one compilation reaches the bounds fixed point (strict oracle)
+                let tag = if f.file_name().map(|n| n.to_string_lossy().contains("bounds-order")).unwrap_or(false) { "corpus-bounds-order" } else { "corpus" };
+                if let Ok(s) = std::fs::read_to_string(&f) { from_source(&s, tag, &mut cases); }
+            }
         }
     }
     // recorded only: 1e22 prints as an integer literal beyond i64 (outside the stated 1e9 range)
@@ -643,6 +681,35 @@ pub fn generate(seed: u64, n: usize, thorough: bool, corpus: Option<&str>) -> Ve
         if !o.is_empty() && r.chance(1, 2) { o[0] = *r.pick(&[f64::NAN, f64::INFINITY, -0.0, 1e22, 5e-324]); }
         let off = if r.chance(1, 2) { *r.pick(&[-0.0, -1e-6, -0.5, f64::NEG_INFINITY]) } else { off };
         cases.push(lin_case(&LinearModel::new_from_parts(o, t, off, cs, vs, d), vec!["random-lin-odd".into()], false));
+    }
+    // --- (ii)+(iii) strict rows `<` / `>` (own generator state, fixed-size blocks): API-built models and sources
+    {
+        let mut rs = r.fork();
+        for i in 0..30 {
+            let m = random_lin(&mut rs, i % 2 == 0);
+            let (o, t, off, cs, vs, d) = m.into_parts();
+            let cs: Vec<rooc::LinearConstraint> = cs.into_iter().enumerate().map(|(k, c)| {
+                let cmp = match (c.constraint_type(), k == 0 || rs.chance(1, 2)) {
+                    (Comparison::LessOrEqual, true) => Comparison::Less,
+                    (Comparison::GreaterOrEqual, true) => Comparison::Greater,
+                    (Comparison::Equal, true) => if rs.chance(1, 2) { Comparison::Less } else { Comparison::Greater },
+                    (x, _) => x.clone(),
+                };
+                rooc::LinearConstraint::new_with_name(c.coefficients().clone(), cmp, c.rhs(), c.name())
+            }).collect();
+            api_lin_cases(&LinearModel::new_from_parts(o, t, off, cs, vs, d), vec!["random-lin-strict-rows".into()], &mut cases);
+        }
+        for i in 0..30 {
+            let s = source_program(&mut rs, i % 2 == 0);
+            // numeric rows only carry a comparison; the first of each kind becomes strict
+            let s = s.replacen(" <= ", " < ", 1).replacen(" >= ", " > ", 1);
+            from_source(&s, "generated-source-strict-rows", &mut cases);
+        }
+    }
+    // --- (iii) rows the bounds analysis has to revisit (own generator state, fixed-size block)
+    {
+        let mut rb = r.fork();
+        for _ in 0..40 { let s = bounds_order_program(&mut rb); from_source(&s, "generated-bounds-order", &mut cases); }
     }
     // --- (iii) iterated families, fragment / variable name clashes, shared row names
     for _ in 0..n / 6 {
